@@ -191,7 +191,7 @@ std::string run(const Scenario &s, CaseInfo &info) {
   };
   std::string drain_err;
   bool reran = false; int runs = 0;
-  uint64_t ctl_seq = 0, xrun_seq = 0; std::atomic<bool> xrun_late{false}; std::atomic<int> xruns{0};
+  uint64_t ctl_seq = 0, xrun_seq = 0; std::atomic<bool> xrun_late{false}; std::atomic<int> xruns{0}, nested_self{0};
   for (int pi = 0; pi < nphases; ++pi) {
     Phase &ph = phases[pi];
     c.phase_no.store(pi + 1);
@@ -235,6 +235,17 @@ std::string run(const Scenario &s, CaseInfo &info) {
               if (last >= 0) { int64_t t1 = steady_ms(); auto settled = [&] { return c.tasks[last].exec_count.load() > 0 || c.tasks[last].cancelled.load(); };   // (a B_CANCEL task may legitimately cancel it)
                 while (!settled() && steady_ms() - t1 < 2500) std::this_thread::sleep_for(std::chrono::microseconds(50));
                 if (!settled()) xrun_late = true; }
+              // and the loop thread delegating to itself from inside a runNext() task: P (runInLoop, from this thread) -> Q (runNext) -> R (runInLoop).
+              // R is handed in on the loop thread while nothing else is due: the loop must not go to sleep on it
+              if (!xrun_late.load() && (ph.a / 9) % 2 == 1) {
+                auto r_idx = std::make_shared<std::atomic<int>>(-2);
+                c.loop->runInLoop([&c, r_idx] { c.loop->runNext([&c, r_idx] { r_idx->store(c.submit_main(E_RUNINLOOP, B_NONE, 0, 3)); }, "Q"); }, "P");
+                nested_self++;
+                int64_t t2 = steady_ms();
+                auto done = [&] { int ri = r_idx->load(); return ri == -1 || (ri >= 0 && (c.tasks[ri].exec_count.load() > 0 || c.tasks[ri].cancelled.load())); };
+                while (!done() && steady_ms() - t2 < 2500) std::this_thread::sleep_for(std::chrono::microseconds(50));
+                if (!done()) xrun_late = true;
+              }
             }
             c.exit_blocked = false;
           }
@@ -271,7 +282,7 @@ std::string run(const Scenario &s, CaseInfo &info) {
         sentinel->disable();
         delete sentinel;
         ctl.join();
-        if (xrun_late.load() && !lost_wakeup) { lost_wakeup = true; lost_msg = "TIMING: a callable handed to Loop::run()/runInLoop(const&) from another thread while the loop was running was not invoked within 2.5 s by an otherwise idle loop (phase " + std::to_string(pi) + "): no wake-up"; }
+        if (xrun_late.load() && !lost_wakeup) { lost_wakeup = true; lost_msg = "TIMING: a callable handed to Loop::run()/runInLoop(const&) from another thread while the loop was running (or a callable the loop thread handed to runInLoop() from inside a runNext() task) was not invoked within 2.5 s by an otherwise idle loop (phase " + std::to_string(pi) + "): no wake-up"; }
         else if (lost_wakeup) { lost_msg = "TIMING: lost wake-up: exit task submitted through runInLoop() from another thread was not run within 2 s by a loop in runLoop(kForever) (phase " + std::to_string(pi) + (c.chains_started ? ", a runNext() chain kept the loop busy" : ", loop idle") + ")"; }
         break; }
       case 2: {   // runLoop(kOnce); make sure the pass cannot block
@@ -341,6 +352,7 @@ std::string run(const Scenario &s, CaseInfo &info) {
   info.cls_if(runs == 0, "never_run_only_destroyed");
   info.cls_if(c.self_cancels > 0, "task_cancels_its_own_id_while_running");
   info.cls_if(xruns.load() > 0, "run_or_lvalue_overload_called_from_another_thread_while_loop_runs");
+  info.cls_if(nested_self.load() > 0, "runInLoop_called_on_the_loop_thread_from_inside_a_runNext_task_on_an_idle_loop");
   info.cls_if(c.chains_started > 0 && c.chain_steps.load() > 10, "runNext_chain_keeps_loop_busy_while_exit_task_arrives");
   info.nontrivial = n > 0 && ((nthreads >= 2 && runs > 0) || any_cancel || c.late_after_exit.load() > 0 || reran);
   return "";
